@@ -16,7 +16,7 @@ structure CycRow where
   ampConsistency : Option Rat
   periodConsistency : Option Rat
   monotonicity : Option Rat
-  deriving Repr, Inhabited
+  deriving Repr, Inhabited, DecidableEq
 
 structure CycThresh where
   ampFraction : Rat
